@@ -486,6 +486,9 @@ func (w *worldA) tweak(r *simrt.Rand, s *AScenario, end int) {
 		}
 	}
 	switch s.Profile {
+	case "c01two":
+		// C01 "for each configured output": a second output with its own queue root and its own faulty upstream
+		s.Out2 = true
 	case "limits":
 		s.QueueCap = r.Range(2, 12)
 		s.MaxBufBytes = r.Range(300, 20000)
@@ -783,6 +786,7 @@ type aStop struct {
 	Took     time.Duration
 	Metrics  map[string]float64
 	Files    map[string][]byte
+	Files2   map[string][]byte // queue files of the second output
 	BugLines int
 }
 
@@ -1008,6 +1012,9 @@ func (r *aRun) stopAgent() {
 	r.net.ResetAll(func(c *simnet.TCPConn) bool { return c.FD() != 0 })
 	simsignal.Reset()
 	st.Files = r.fs.Files(aBufRoot)
+	if r.s.Out2 {
+		st.Files2 = r.fs.Files(aBufRoot2)
+	}
 	r.stops = append(r.stops, st)
 	r.agent = nil
 	r.stopping = false
@@ -1032,7 +1039,7 @@ func (r *aRun) drive() {
 	if s.Out2 {
 		r.fs.MkdirAllRaw(aBufRoot2)
 		r.srv2 = newAServer(r)
-		r.srv2.addr, r.srv2.healthyOnly, r.srv2.name = aUpstreamAddr2, true, "fluentd2"
+		r.srv2.addr, r.srv2.healthyOnly, r.srv2.name = aUpstreamAddr2, s.Profile != "c01two", "fluentd2"
 		r.srv2.start()
 	}
 	if !r.startAgent() {
